@@ -3,7 +3,7 @@
 From Coq Require Import List Arith NArith ZArith Bool Lia.
 From Coq.Strings Require Import Byte.
 Import ListNotations.
-From OV Require Import Base.Bytes Base.Cases Base.Utf8 Model.Safety.
+From OV Require Import Base.Bytes Base.Cases Base.Utf8 Model.Safety Proofs.DelimUtf8 Proofs.DelimValid.
 
 Lemma rune_at_some rs pos : (0 <= pos < Z.of_nat (length rs))%Z -> exists c, rune_at rs pos = Some c.
 Proof.
@@ -84,6 +84,18 @@ Proof.
   - eexists. split; [exact Ho|]. exists (encode_runes (skipn n (runes s))).
     rewrite <- encode_runes_app, firstn_skipn. symmetry. exact Hrt.
 Qed.
+
+(* Valid UTF-8 re-encodes to itself (C06: the bytes DecodeRune consumes are the encoding of the
+   rune it returns -- complete sweeps over lead / continuation bytes, Proofs/DelimSweepB.v). *)
+Lemma utf8_valid_roundtrip (s : bytes) : utf8_valid s = true -> encode_runes (runes s) = s.
+Proof.
+  intro Hv. unfold encode_runes. rewrite flat_map_concat_map. pose proof (chunks_valid s Hv) as Hc.
+  transitivity (concat (Delim.chunks s)); [f_equal; symmetry; exact Hc|apply concat_chunks].
+Qed.
+
+Theorem remove_last_filter_prefix_utf8_lemma (s : bytes) :
+  utf8_valid s = true -> exists out, remove_last_filter s = Some out /\ is_prefix out s.
+Proof. intro Hv. apply remove_last_filter_prefix_lemma. apply utf8_valid_roundtrip. exact Hv. Qed.
 
 (* Without that hypothesis the byte-prefix statement is false: invalid UTF-8 is re-encoded. *)
 Lemma remove_last_filter_bytes_prefix_refuted_lemma :
